@@ -96,6 +96,7 @@ class ContractSet:
         self.fields = {}
         self.modules = {}
         self.opaque = {}
+        self.inputs_phase = False
         self.pre_vals = None
         self.old_vals = None
         self.entry_frame = None
@@ -252,7 +253,7 @@ class ContractSet:
             cls = I.class_by_qual(typ[4:])
             if depth > 4:
                 raise Unsupported("object nesting too deep")
-            ref = VRef(P.alloc(HObj("inst", cls, {}, meta={"name": name, "input": True})))
+            ref = VRef(P.alloc(HObj("inst", cls, {}, meta={"name": name, "input": bool(self.inputs_phase)})))
             o = P.heap[ref.ref]
             for f, ft in self.class_fields(cls).items():
                 o.fields[f] = self.make(I, ft, f"{name}.{f}", depth + 1)
@@ -432,8 +433,12 @@ class ContractSet:
 
     def setup_inputs(self, I, c: Contract):
         loc = {}
-        for p, t in c.params.items():
-            loc[p] = self.make(I, t, p)
+        self.inputs_phase = True
+        try:
+            for p, t in c.params.items():
+                loc[p] = self.make(I, t, p)
+        finally:
+            self.inputs_phase = False
         for q, t in c.globals.items():
             cq, attr = q.rsplit(".", 1)
             cls = I.class_by_qual(cq)
